@@ -80,6 +80,14 @@ MUTATIONS = [
     ("c09-revert-fix5", "tokens.py", "        except ValueError:\n            # The token file has been created by another process but is not\n            # written yet: a \"modified\" event will follow\n            logger.debug(\"Token file %s is not complete yet\", path)\n", "", ["C09"]),
     ("c09-revert-fix16", "tokens.py", "                    dependency.name,\n                )\n            else:", "                    dependency.name,\n                )\n                return\n            else:", ["C09", "C06"]),
     ("c09-reclaim-no-delete", "tokens.py", "                process.wait()\n\n            self.delete()", "                process.wait()", ["C09"]),
+    # C10
+    ("c10-done-before-body", "run.py", "                rmfile(self.failedpath)\n                self.started = True\n                run(workdir / \"params.json\")", "                rmfile(self.failedpath)\n                self.started = True\n                self.donepath.touch()\n                run(workdir / \"params.json\")", ["C10"]),
+    ("c10-no-failed-marker", "run.py", "        self.failedpath.write_text(str(code))\n        self.cleanup()", "        self.cleanup()", ["C10"]),
+    ("c10-stale-failed-kept", "run.py", "                rmfile(self.failedpath)\n                self.started = True", "                self.started = True", ["C10"]),
+    ("c10-done-not-consulted", "run.py", "            if self.donepath.is_file():\n                logger.info(\"Job already completed\")\n            else:", "            if False:\n                logger.info(\"Job already completed\")\n            else:", ["C10"]),
+    ("c10-revert-fix6", "run.py", "            if remove_cleanup:\n                atexit.unregister(self.cleanup)", "            atexit.unregister(self.cleanup)", ["C10"]),
+    ("c10-no-sigterm-handler", "run.py", "        sigterm_handler = signal.signal(signal.SIGTERM, self.handle_error)", "        sigterm_handler = signal.getsignal(signal.SIGTERM)", ["C10"]),
+    ("c10-cleanup-keeps-pid", "run.py", "            rmfile(self.pidfile)\n            for lock in self.locks:", "            for lock in self.locks:", ["C10"]),
     # C12
     ("c12-revert-fix7", "core/objects.py", "        if self.meta is not None:\n            state_dict[\"meta\"] = self.meta", "        if self.meta:\n            state_dict[\"meta\"] = self.meta", ["C12"]),
     ("c12-revert-fix14", "core/objects.py", "                o.__xpm__.init_tasks = [\n                    objects[init_task_id]\n                    for init_task_id in definition.get(\"init-tasks\", [])\n                ]", "                pass", ["C12", "C20"]),
